@@ -98,6 +98,7 @@ static std::string run_case(BasicIPhreeqc* p, const std::string& host, const std
   if (host == "print") p->SetOutputStringOn(true);   // print_all is skipped when no output sink is on
   try { nerr = p->RunString(input.c_str()); } catch (...) { exc = true; }
   std::vector<std::string> items;
+  std::string rate_exc;
   if (host == "punch" || host == "punchhp") {
     // values as delivered by the API: GetSelectedOutputValue, row 1.. (row 0 = headings)
     int nr = p->GetSelectedOutputRowCount(), nc = p->GetSelectedOutputColumnCount();
@@ -118,6 +119,7 @@ static std::string run_case(BasicIPhreeqc* p, const std::string& host, const std
       try { if (TestIPhreeqc::rate_once(p, v) != 0) { items.push_back("!nokinetics"); nerr = -1; } else items.push_back("D" + hx::hexd(v)); }
       catch (const PhreeqcStop&) { nerr = 1; }
       catch (const IPhreeqcStop&) { nerr = 1; }     // error_msg(..., STOP): what RunString itself catches
+      catch (const std::exception& e) { nerr = 1; rate_exc = e.what(); }   // RunString turns these into an error return too
       catch (...) { exc = true; }
     }
   } else if (host == "calc") {
@@ -128,7 +130,7 @@ static std::string run_case(BasicIPhreeqc* p, const std::string& host, const std
   o << (exc ? "exc" : nerr ? "err" : "ok");
   for (auto& s : items) o << " " << s;
   std::string errs = p->GetErrorString();
-  if (host == "rates" && nerr == 1 && errs.empty()) errs = "(PhreeqcStop in calc_kinetic_reaction)";
+  if (host == "rates" && nerr == 1 && errs.empty()) errs = rate_exc.empty() ? "(PhreeqcStop in calc_kinetic_reaction)" : "std::exception: " + rate_exc;
   o << " | " << hx::hex(errs) << " | " << hx::hex(p->GetWarningString());
   return o.str();
 }
